@@ -26,6 +26,10 @@ def mk_grid(k):
         return fm.UniformGrid((3, 4), data_location="POINTS")
     if k == "Gother":
         return fm.UniformGrid((4, 4))
+    if k in ("Uc", "Up"):  # an unstructured mesh with as many cells as nodes: per-cell and per-node data have the same shape
+        pts = [[0.0, 0.0], [2.0, 0.0], [2.0, 2.0], [0.0, 2.0], [1.0, 1.0]]
+        cells = [[0, 1, 4], [1, 2, 4], [2, 3, 4], [3, 0, 4], [0, 1, 2]]
+        return fm.UnstructuredGrid(pts, cells, [fm.CellType.TRI] * 5, data_location="CELLS" if k == "Uc" else "POINTS")
     raise ValueError(k)
 
 
@@ -34,7 +38,7 @@ def located(g):
         return None
     if isinstance(g, fm.NoGrid):
         return ("nogrid", tuple(g.data_shape))
-    return (str(g.data_location), tuple(sorted(tuple(round(float(x), 9) for x in p) for p in g.data_points)))
+    return (str(g.data_location), isinstance(g, fm.data.StructuredGrid), tuple(sorted(tuple(round(float(x), 9) for x in p) for p in g.data_points)))
 
 
 def phys_mask(kind, g, variant):
@@ -290,8 +294,20 @@ def run_one(p, cs, via, order):
         comp = compose([comps[n] for n in order])
     except Exception as e:  # noqa - invalid Info construction (e.g. mask shape vs grid): not a case
         return ("construct", type(e).__name__, str(e)[:80]), None, None
+    if isinstance(via, list) and via[0] == "mix":
+        for c, v in zip(cons, via[1:]):
+            a = mk_adapter(v)
+            if a is None:
+                prod.outputs["o"] >> c.inputs["i"]
+            else:
+                prod.outputs["o"] >> a
+                a >> c.inputs["i"]
+        via = None
+        cons_linked = True
+    else:
+        cons_linked = False
     ad = mk_adapter(via)
-    for c in cons:
+    for c in ([] if cons_linked else cons):
         if ad is not None:
             prod.outputs["o"] >> ad
             ad >> c.inputs["i"]
@@ -368,6 +384,17 @@ def run_case(case):
     res = dict(n=0, nontrivial=0, counters={}, violations=[])
     cnt = res["counters"]
     for p, cs, via, order in case["items"]:
+        if isinstance(via, list) and via[0] == "mix":
+            # one consumer linked directly, another one through a metadata-rewriting adapter whose upstream request contradicts it
+            out, prod, cons = run_one(p, cs, via, order)
+            res["n"] += 1
+            res["nontrivial"] += 1
+            cnt["mix_" + out[0]] = cnt.get("mix_" + out[0], 0) + 1
+            if out[0] == "ok":
+                res["violations"].append(viol(dict(kind="metadata", clause="accepted_but_ends_conflict", via="mixed_fan_out"), f"producer={p} consumers={cs} via={via} order={order}: the direct consumer needs {cs[0]['grid']}, the adapter asks the same output for NoGrid, connect() succeeded", dict(items=[[p, cs, via, order]])))
+            elif out[0] == "exc":
+                res["violations"].append(viol(dict(kind="metadata", clause="non_metadata_exception", via="mixed_fan_out", error=out[1]), f"producer={p} consumers={cs} via={via} order={order}: {out[1]}: {out[2]}", dict(items=[[p, cs, via, order]])))
+            continue
         if isinstance(via, list):  # relay family: via = ["relay", out_units, pull]
             res["n"] += 1
             res["nontrivial"] += 1
@@ -418,7 +445,7 @@ def replay(case):
     return run_case(case)["violations"]
 
 
-GRIDS = ["unset", "nogrid", "G", "Glay", "Gloc", "Gother"]
+GRIDS = ["unset", "nogrid", "G", "Glay", "Gloc", "Gother", "Uc", "Up"]
 UNITS_ = ["unset", "m", "km", "s"]
 MASKS = ["unset", "FLEX", "NONE", "nomask", "M", "M2"]
 FOO = ["absent", "unset", "v", "w"]
@@ -430,7 +457,7 @@ def side(**kw):
 
 
 def mask_ok_for(grid, mask):
-    return mask not in ("M", "M2") or grid in ("G", "Glay", "Gloc", "Gother")
+    return mask not in ("M", "M2") or grid in ("G", "Glay", "Gloc", "Gother", "Uc", "Up")
 
 
 def items(tier):
@@ -471,6 +498,11 @@ def items(tier):
         for pu in ("mm/h", "unset"):
             for cu in ("unset", "mm", "m", "s"):
                 out.append([side(units=pu), [side(units=cu)], "SumOverTime", list(order)])
+    # mixed fan-out: C0 directly (needs grid G), C1 behind ValueToGrid (asks the same output for NoGrid): a conflict in every order
+    for pg in ("unset", "G"):
+        for order in itertools.permutations(["P", "C0", "C1"]):
+            out.append([side(grid=pg), [side(grid="G"), side(grid="G")], ["mix", None, "ValueToGrid"], list(order)])
+            out.append([side(grid=pg), [side(grid="G"), side(grid="unset")], ["mix", None, "ValueToGrid"], list(order)])
     # a relay component whose output metadata is composed by transfer rules (copy from input, then override units and an extra key)
     for pu in ("m", "km", "mm/h"):
         for ou in ("m", "s", "mm"):
